@@ -76,5 +76,14 @@ package protocol
 
 //@ decoder (*IGMPv3GroupRecord).UnmarshalBinary(p, data) (err) [C08 C12]
 //@   ensures err == nil ==> 8 + 4*int(p.AuxDataLen) + 4*int(p.NumberOfSources) <= len(data)
+//@   loop 1:
+//@     invariant i <= p.NumberOfSources && n == 8 + 4*int(i) && 8 + 4*int(p.AuxDataLen) + 4*int(p.NumberOfSources) <= len(data)
+//@     decreases int(p.NumberOfSources) - int(i)
+//@   loop 2:
+//@     invariant i <= p.AuxDataLen && n == 8 + 4*int(p.NumberOfSources) + 4*int(i) && 8 + 4*int(p.AuxDataLen) + 4*int(p.NumberOfSources) <= len(data)
+//@     decreases int(p.AuxDataLen) - int(i)
 
 //@ decoder (*IGMPv3MembershipReport).UnmarshalBinary(p, data) (err) [C08 C12]
+//@   loop 1:
+//@     invariant i <= p.NumberOfGroups && 8 <= n && n <= len(data)
+//@     decreases int(p.NumberOfGroups) - int(i)
